@@ -56,6 +56,10 @@ type Server struct {
 	Unknown   []string // statements the fake did not recognise
 	Misuse    []string // use of an ended transaction, statements after close
 	closed    bool
+	// Lenient: a failed statement or row fetch leaves its transaction usable (an error
+	// that the server did not see, e.g. a client-side failure); by default the transaction
+	// is aborted the way Postgres aborts it and every later statement in it fails
+	Lenient bool
 }
 
 func NewServer() *Server {
@@ -276,7 +280,7 @@ func (t *Tx) usable(op string) error {
 		return pgx.ErrTxClosed
 	}
 	if s.step() {
-		t.aborted = true
+		t.aborted = !s.Lenient
 		s.logf(op, t.id, false, "injected")
 		return ErrInjected
 	}
@@ -400,7 +404,7 @@ func (r *Rows) Next() bool {
 		// a failed fetch: the result set ends prematurely, the transaction is broken
 		r.err = ErrInjected
 		r.closed = true
-		r.tx.aborted = true
+		r.tx.aborted = !s.Lenient
 		s.logf("next", r.tx.id, false, "injected")
 		return false
 	}
